@@ -217,15 +217,15 @@ func (n *ChanNode) Do(chid datatransfer.ChannelID, op string, a OpArgs) error {
 	case "Cancel":
 		return c.Cancel(chid)
 	case "Error":
-		return c.Error(chid, errors.New(a.Err))
+		return c.Error(chid, errors.New(ExpandText(a.Err)))
 	case "Disconnected":
-		return c.Disconnected(chid, errors.New(a.Err))
+		return c.Disconnected(chid, errors.New(ExpandText(a.Err)))
 	case "RequestCancelled":
-		return c.RequestCancelled(chid, errors.New(a.Err))
+		return c.RequestCancelled(chid, errors.New(ExpandText(a.Err)))
 	case "SendDataError":
-		return c.SendDataError(chid, errors.New(a.Err))
+		return c.SendDataError(chid, errors.New(ExpandText(a.Err)))
 	case "ReceiveDataError":
-		return c.ReceiveDataError(chid, errors.New(a.Err))
+		return c.ReceiveDataError(chid, errors.New(ExpandText(a.Err)))
 	case "SetDataLimit":
 		return c.SetDataLimit(chid, a.Limit)
 	case "SetRequiresFinalization":
